@@ -112,6 +112,10 @@ type Interp struct {
 	pendingAbort *pathAbort
 	mutexes      map[*value]*mstate
 	exp          *explorer
+	ld           *Loaded
+	curFr        *frame
+	initErr      map[*ssa.Package]string
+	bypass       *ssa.Function // the intrinsic of this function is skipped (engine calls the real body)
 	inputSeq     map[string]int
 
 	errorStringPtr types.Type
@@ -146,8 +150,9 @@ func (fr *frame) set(key ssa.Value, v value) {
 }
 
 func (i *Interp) globalAddr(g *ssa.Global) *value {
-	if g.Pkg != nil && i.pkgState[g.Pkg] == 0 {
+	if g.Pkg != nil && i.pkgState[g.Pkg] != 2 && i.pkgState[g.Pkg] != 1 {
 		i.initPackage(g.Pkg)
+		i.checkInitOK(g.Pkg)
 	}
 	if r, ok := i.globals[g]; ok {
 		return r
@@ -238,6 +243,9 @@ func (i *Interp) info(fn *ssa.Function) *fnInfo {
 	fi.isInit = fn.Synthetic == "package initializer"
 	if fn.Parent() == nil {
 		fi.intrinsic = lookupIntrinsic(fi.name)
+		if fi.intrinsic == nil && strings.HasPrefix(fi.name, "(*regexp.Regexp).") && fn.Blocks != nil && fn.Object() != nil && fn.Object().Exported() {
+			fi.intrinsic = regexpMethodIntrinsic(fn, fi.name)
+		}
 	}
 	i.fnInfos[fn] = fi
 	return fi
@@ -590,12 +598,13 @@ func (i *Interp) callSSA(caller *frame, callpos token.Pos, fn *ssa.Function, arg
 				return i.call(caller, callpos, st, args)
 			}
 		}
-		if info.intrinsic != nil {
+		if info.intrinsic != nil && i.bypass != fn {
 			i.stubsUsed[info.name] = true
 			return info.intrinsic(i, fr, args)
 		}
-		if fn.Pkg != nil && i.pkgState[fn.Pkg] == 0 && !info.isInit {
+		if fn.Pkg != nil && i.pkgState[fn.Pkg] != 2 && i.pkgState[fn.Pkg] != 1 && !info.isInit {
 			i.initPackage(fn.Pkg)
+			i.checkInitOK(fn.Pkg)
 		}
 		if fn.Blocks == nil {
 			chain := ""
@@ -683,6 +692,7 @@ func (i *Interp) runFrame(fr *frame) {
 				panic(pathAbort{kind: "steps", msg: fmt.Sprintf("step bound %d exceeded in %s", i.cfg.MaxSteps, fr.fn)})
 			}
 			fr.curInstr = instr
+			i.curFr = fr
 			if i.visitInstr(fr, instr) == kReturn {
 				return
 			}
@@ -746,6 +756,9 @@ func (i *Interp) doRecover(caller *frame) value {
 			if i.path != nil {
 				i.path.recovered = append(i.path.recovered, p.String())
 			}
+			if i.cfg.Verbose {
+				fmt.Fprintf(os.Stderr, "[recovered by %s] %s @ %s\n", caller.fn, p.String(), p.where)
+			}
 			return p.v
 		default:
 			panic(fmt.Sprintf("unexpected panic type %T in target call to recover()", p))
@@ -762,7 +775,7 @@ var noInitPkgs = map[string]bool{
 	"os/exec": true, "os/signal": true, "os/user": true, "net": true, "net/http": true,
 	"crypto/rand": true, "math/rand": true, "math/rand/v2": true, "internal/godebug": true,
 	"internal/cpu": true, "internal/bytealg": true, "log": true, "testing": true,
-	"internal/reflectlite": true, "context": true, "fmt": true, "regexp": true, "regexp/syntax": true,
+	"internal/reflectlite": true, "fmt": true,
 	"encoding/json": true, "unsafe": true, "internal/abi": true, "internal/oserror": true,
 	"io/fs": true, "path/filepath": true, "internal/testlog": true, "internal/race": true,
 	"crypto/md5": true, "crypto/sha1": true, "crypto/sha256": true, "crypto/sha512": true, "hash/crc32": true,
@@ -779,6 +792,17 @@ func (i *Interp) initPackage(pkg *ssa.Package) {
 		i.pkgState[pkg] = 2
 		return
 	}
+	// murex packages are initialised in Go's order (imports first): their init() functions
+	// register parsers, builtins and data types into package-level tables of lang.
+	if strings.HasPrefix(path, "github.com/lmorg/murex") {
+		for _, imp := range pkg.Pkg.Imports() {
+			if strings.HasPrefix(imp.Path(), "github.com/lmorg/murex") {
+				if dep := i.prog.Package(imp); dep != nil {
+					i.initPackage(dep)
+				}
+			}
+		}
+	}
 	initFn := pkg.Func("init")
 	if initFn == nil {
 		i.pkgState[pkg] = 2
@@ -790,6 +814,7 @@ func (i *Interp) initPackage(pkg *ssa.Package) {
 	if i.cfg.Trace {
 		fmt.Fprintf(os.Stderr, "== init %s\n", path)
 	}
+	failed := false
 	func() {
 		defer func() {
 			i.initDepth--
@@ -798,15 +823,31 @@ func (i *Interp) initPackage(pkg *ssa.Package) {
 			i.steps = savedSteps
 			if r := recover(); r != nil {
 				if pa, ok := r.(pathAbort); ok && pa.kind == "unsupported" {
-					pa.msg = "in init of " + path + ": " + pa.msg
-					panic(pa)
+					// the package cannot be initialised by the engine (it touches the OS): it is
+					// marked failed; only a later use of the package ends a path
+					failed = true
+					if i.initErr == nil {
+						i.initErr = map[*ssa.Package]string{}
+					}
+					i.initErr[pkg] = "in init of " + path + ": " + pa.msg
+					return
 				}
 				panic(r)
 			}
 		}()
 		i.callSSA(nil, token.NoPos, initFn, nil, nil)
 	}()
+	if failed {
+		i.pkgState[pkg] = 3
+		return
+	}
 	i.pkgState[pkg] = 2
+}
+
+func (i *Interp) checkInitOK(pkg *ssa.Package) {
+	if i.pkgState[pkg] == 3 {
+		panic(pathAbort{kind: "unsupported", msg: i.initErr[pkg]})
+	}
 }
 
 func isOpaquePath(path string) bool {
